@@ -41,14 +41,7 @@ def topo_cases(tier):
         stats.append(res.stats)
         rnd = random.Random(seed())
         cases += rnd.sample(more, min(len(more), 1200))
-    else:
-        more = []
-        res = run_tlc("TopoSort", {"N": 5, "Acyclic": "TRUE"},
-                      invariants=["ResultCorrect", "AlwaysPermutation", "PrefixPlaced", "TDump"],
-                      spec="TSpec", prefix=("TOPO",), on_line=lambda t, b: more.append(json.loads(b)),
-                      simulate=400, depth=60, seed=seed())
-        stats.append(res.stats)
-        cases += more
+    # (5 nodes: 29,281 labelled DAGs x 120 orders are too many initial states for TLC's simulation mode)
     # the design-level hang: on cyclic graphs termination must be refuted
     res = run_tlc("TopoSort", {"N": 3, "Acyclic": "FALSE"}, properties=["TerminatesOnCycles"], spec="TSpec",
                   expect_violation=True)
@@ -120,7 +113,8 @@ def c15(tier, replay):
     rep = Report("C15", tier)
     rep.assumptions = [
         "spec/TopoSort.tla: abstract requirement + the rotation algorithm, every DAG on <= 4 nodes x every input order "
-        "(5 nodes by simulation in the thorough tier); termination refuted on cyclic graphs (vacuity guard)",
+        "(thorough: all of them with the liveness pass; quick: all of 3 nodes and a sample of 4); termination refuted on "
+        "cyclic graphs (vacuity guard)",
         "each (graph, order) is rendered as isar XML twice: all definitions structs (the input order reaches the sort "
         "unchanged), mixed kinds (constants, enums, typedefs, structs, unions; isar regroups by kind) and types only "
         "with frequent unions (unions of unions, structs of unions, discriminators named by enumerators)",
